@@ -45,7 +45,7 @@ def listing(found, goarch="amd64", nrs=None):
     return "\n".join(lines) + ("\n" if lines else "")
 
 
-def realise(c, table, r):
+def realise(c, table, r, related=False):
     """Profile.tla speaks of abstract names. A case is replayed with those names themselves or (every second case) with other syscalls of the
     binary's table standing in for the names the binary's architecture has: half of them from the 45 highest-numbered entries (numbers far
     above the table's entry count, behind the gap of unassigned numbers), the others anywhere. Returns the renamed case and its numbers."""
@@ -55,7 +55,32 @@ def realise(c, table, r):
     high = [n for _, n in by_nr[-45:]]
     anyw = [n for _, n in by_nr[:-45]]
     rho, nrs = {}, {}
+    if related:
+        # names that CONTAIN each other (exit / exit_group, kill / tgkill, stat / fstat / newfstatat, read / pread64 / readlinkat): the
+        # statement's set difference is over whole names - blacklisting one name of such a family removes that name only
+        allnames = [n for _, n in by_nr]
+        pairs = [(x, y) for x in allnames for y in allnames if x != y and x in y]
+        r.shuffle(pairs)
+        order = list(own)
+        r.shuffle(order)
+        used = set()
+        for a in order:
+            if a in rho:
+                continue
+            rest = [x for x in order if x not in rho and x != a]
+            pick = next(((x, y) for x, y in pairs if x not in used and y not in used), None)
+            if pick and rest:
+                x, y = pick if r.randrange(2) else pick[::-1]
+                rho[a], rho[rest[0]] = x, y
+                used |= {x, y}
+            else:
+                n = next(n for n in allnames if n not in used)
+                rho[a] = n
+                used.add(n)
+        nrs = {n: table[n] for n in rho.values()}
     for k, a in enumerate(own):
+        if related:
+            break
         pool = high if (k + r.randrange(2)) % 2 == 0 else anyw
         n = pool.pop(r.randrange(len(pool)))
         rho[a] = n
@@ -136,7 +161,7 @@ def check(ctx, replay=None):
         r = random.Random(ctx.seed * 100003 + i)
         nrs = None
         if i % 2 == 1:
-            c, nrs = realise(c, tables[c["goarch"]], r)
+            c, nrs = realise(c, tables[c["goarch"]], r, related=(i % 4 == 3))
         bdir = os.path.join(work, "b%d" % i)
         os.makedirs(bdir, exist_ok=True)
         b = os.path.join(bdir, "target")
